@@ -54,13 +54,14 @@ def config(ctx):
             rt=dict(seconds=1, from_plan=48, long_num=16, long_depth=50, long_ids=8),
             per_proc=40, nproc=3)
     return dict(
-        plans=[Plan("q1i3", "S_q1", 60, workers=16, max_inst=3, max_pw=1, stray=1),
-               Plan("t1ai2", "S_t1a", 60, workers=16, max_inst=2, max_pw=1),
-               Plan("t1di4", "S_t1d", 30, workers=16, max_inst=4, max_pw=1, stray=1),
-               Plan("q1i3nt", "S_q1", 30, workers=16, max_inst=3, max_pw=1, stray=1, timeout_on=False),
-               Plan("two", "S_t1d", 400, workers=16, ids="Ids2", max_inst=2, max_pw=0, pw_on=False)],
-        long_mc=[("x2", [1, 2], dict(max_serial=4, workers=16)),
-                 ("x2rt", [1, 2], dict(max_serial=3, real_time=True, workers=16)),
+        plans=[Plan("q1i3", "S_q1", 25, workers=16, nproc=12, max_inst=3, max_pw=1),
+               Plan("q1i2s", "S_q1", 25, workers=16, nproc=12, max_inst=2, max_pw=1, stray=1),
+               Plan("t1di4", "S_t1d", 40, workers=16, nproc=12, max_inst=4, max_pw=1, stray=1),
+               Plan("t1ai3", "S_t1a", 8, workers=8, nproc=6, max_inst=3, max_pw=0, pw_on=False, stray=1),
+               Plan("q1i3nt", "S_q1", 12, workers=16, nproc=12, max_inst=3, max_pw=1, timeout_on=False),
+               Plan("two", "S_t1d", 10, workers=8, nproc=6, ids="Ids2", max_inst=1, max_pw=0, pw_on=False)],
+        long_mc=[("x2", [1, 2], dict(max_serial=3, workers=16)),
+                 ("x2rt", [1, 2], dict(max_serial=2, real_time=True, workers=16)),
                  ("x3", [1, 2, 3], dict(max_serial=2, workers=16)),
                  ("x3rt", [1, 2, 3], dict(max_serial=2, real_time=True, workers=16))],
         long_gen=dict(jvms=8, num=8, depth=5000, ids=16), long_gen_nt=dict(jvms=2, num=8, depth=5000),
@@ -116,7 +117,7 @@ def run(ctx):
     t_all = time.time()
 
     # ---- 1. TLC: exhaustive runs (B x A x ledger; abstract spec), generation of long histories -----------------------
-    pool = ThreadPoolExecutor(8)
+    pool = ThreadPoolExecutor(24)
     f_plans = [pool.submit(C.book_model_check, ctx, p.name, p.table, workers=p.workers, emit_mod=p.emit_mod, **p.mc)
                for p in cfg["plans"]]
     f_longmc = [pool.submit(C.long_model_check, ctx, name, ids, **kw) for name, ids, kw in cfg["long_mc"]]
@@ -175,7 +176,7 @@ def run(ctx):
         for b in behaviours:
             if len(b) >= 2:
                 distinct.add(R.hist_short(b))
-        for b in behaviours[:1]:
+        for b in sorted(behaviours, key=len)[-1:]:
             ctx.sample({"plan": p.name, "history": R.hist_short(b)})
         ctx.note("plan %s/%s%s: MCBook %d states %d transitions, ledger invariants hold (TLC %.0fs incl. wait); %d behaviours, "
                  "%d steps replayed (%.0fs), validated by TLC BookTrace (%.0fs); %d contract findings"
@@ -240,7 +241,7 @@ def run(ctx):
         raise box["err"]
     hs, nplan, runs = box["rt"]
     rts = {"histories": 0, "from_exhaustive_behaviours": nplan, "records": 0, "wait_records": 0, "timer_firings": 0,
-           "firings_with_output": 0, "eof_clean": 0, "eof": 0, "late_attempts": 0, "inconclusive": 0, "quiet_after_replacement": 0}
+           "firings_with_output": 0, "eof_clean": 0, "eof": 0, "late_attempts": 0, "inconclusive": 0}
     for timing, out, wall in runs:
         t2 = time.time()
         vals = C.validate(ctx, out["trace"], out["lines"]) if out["lines"] else ([], [], [], [])
